@@ -1,0 +1,28 @@
+// SPDX-FileCopyrightText: 2020-present Open Networking Foundation <info@opennetworking.org>
+//
+// SPDX-License-Identifier: Apache-2.0
+
+//go:build verif
+
+package configuration
+
+import (
+	"github.com/onosproject/onos-config/pkg/southbound/gnmi"
+	"github.com/onosproject/onos-config/pkg/store/topo"
+	configuration "github.com/onosproject/onos-config/pkg/store/v2/configuration"
+)
+
+// NewReconcilerForVerif exposes the Reconciler to the verification harness
+func NewReconcilerForVerif(topo topo.Store, conns gnmi.ConnManager, configurations configuration.Store) *Reconciler {
+	return &Reconciler{conns: conns, topo: topo, configurations: configurations}
+}
+
+// NewWatcherForVerif exposes the Watcher to the verification harness
+func NewWatcherForVerif(configurations configuration.Store) *Watcher {
+	return &Watcher{configurations: configurations}
+}
+
+// NewTopoWatcherForVerif exposes the TopoWatcher to the verification harness
+func NewTopoWatcherForVerif(topo topo.Store) *TopoWatcher {
+	return &TopoWatcher{topo: topo}
+}
